@@ -311,36 +311,57 @@ func read(buf *[]byte, offset int, iprot *protocol, name string, fieldType int, 
 	case TBool:
 		var v bool
 		v, err = iprot.ReadBool(ctx)
+		if err != nil {
+			return offset, err
+		}
 		ensureBytesLen(buf, offset, Binary.BoolLength(v))
 		offset += Binary.WriteBool((*buf)[offset:], v)
 	case TByte:
 		var v int8
 		v, err = iprot.ReadByte(ctx)
+		if err != nil {
+			return offset, err
+		}
 		ensureBytesLen(buf, offset, Binary.ByteLength(v))
 		offset += Binary.WriteByte((*buf)[offset:], v)
 	case TI16:
 		var v int16
 		v, err = iprot.ReadI16(ctx)
+		if err != nil {
+			return offset, err
+		}
 		ensureBytesLen(buf, offset, Binary.I16Length(v))
 		offset += Binary.WriteI16((*buf)[offset:], v)
 	case TI32:
 		var v int32
 		v, err = iprot.ReadI32(ctx)
+		if err != nil {
+			return offset, err
+		}
 		ensureBytesLen(buf, offset, Binary.I32Length(v))
 		offset += Binary.WriteI32((*buf)[offset:], v)
 	case TI64:
 		var v int64
 		v, err = iprot.ReadI64(ctx)
+		if err != nil {
+			return offset, err
+		}
 		ensureBytesLen(buf, offset, Binary.I64Length(v))
 		offset += Binary.WriteI64((*buf)[offset:], v)
 	case TDouble:
 		var v float64
 		v, err = iprot.ReadDouble(ctx)
+		if err != nil {
+			return offset, err
+		}
 		ensureBytesLen(buf, offset, Binary.DoubleLength(v))
 		offset += Binary.WriteDouble((*buf)[offset:], v)
 	case TString:
 		var v string
 		v, err = iprot.ReadString(ctx)
+		if err != nil {
+			return offset, err
+		}
 		ensureBytesLen(buf, offset, Binary.StringLength(v))
 		offset += Binary.WriteString((*buf)[offset:], v)
 	case TSet:
